@@ -173,6 +173,7 @@ class Exec:
         self.stats = {'forks': 0, 'merges': 0}
         self.deref_hook = None   # (ex, st, Ptr) -> value: plain loads through pointers into a shared region
         self.store_hook = None   # (ex, st, Ptr, path, value): plain stores through such pointers
+        self.inline_drops = False   # interpret user Drop impls at drop terminators (C16: descriptors are closed on every path)
         self.const_hooks = []    # [(regex, value)] named constants of std given by the check (e.g. Duration::MAX)
         self.frame_ty = {}       # frame id -> {generic parameter name: concrete type} (set when a dyn call is dispatched)
         self.no_merge = []       # regexes of callee names whose return paths are kept separate
@@ -856,6 +857,16 @@ class Exec:
             return v
         if kind == 'Transmute':
             return self.transmute(v, opnd, ty, st, fr, fn)
+        if kind == 'PointerExposeProvenance' and isinstance(v, Ptr):
+            # address of a byte of a mapped region: an unknown page-aligned base plus the known offset
+            if not hasattr(self, 'region_bases'):
+                self.region_bases = {}
+            b = self.region_bases.get(v.region)
+            if b is None:
+                b = self.fresh('base_' + v.region)
+                self.side.append(z3.And(b >= 4096, b < 2 ** 47, b % 4096 == 0))
+                self.region_bases[v.region] = b
+            return b + v.off
         if kind in ('PointerExposeProvenance', 'PointerWithExposedProvenance'):
             raise EngineError('pointer/integer cast')
         raise EngineError('cast kind ' + kind)
@@ -927,6 +938,8 @@ class Exec:
             if m is None and len(name.split('::')) >= 2 and name.split('::')[-2] in prog.enums:
                 raise EngineError('unknown variant ' + name)
             if m is None and len(name.split('::')) >= 2 and name.split('::')[-2][0].isupper() and name.split('::')[-2] not in prog.struct_fields:
+                if name.startswith('std::') or name.startswith('core::') or name.startswith('alloc::'):
+                    return Opaque('variant:' + name)       # a unit variant of a std enum the checks never inspect (e.g. io::ErrorKind::Other)
                 raise EngineError('aggregate of unknown enum %s (add its declaration to the scanned sources)' % name)
             return Struct(args)     # tuple struct / unit struct
         raise EngineError('rvalue? ' + s)
@@ -1084,6 +1097,8 @@ class Exec:
                 return None
             place = parse_place(dest.strip())
             first = None
+            # the path being executed continues with its own state object when the callee returned it
+            outcomes = sorted(outcomes, key=lambda o: 0 if o[0] is st else 1)
             for (s2, val) in outcomes:
                 self.store(s2, fr, place, val)
                 if first is None:
@@ -1129,18 +1144,56 @@ class Exec:
         return body[:i].strip(), body[i + 1:e]
 
     def do_drop(self, place_s, nxt, st, fr, fn, work, outs):
-        # Drop glue is not interpreted, except for user Drop impls that the check put on its environment
-        # list (they then appear as events).  Values are left in place.
-        v = None
-        try:
-            v = self.load(st, fr, parse_place(place_s))
-        except EngineError:
-            pass
-        ty = fn.ltypes.get(parse_place(place_s)[0], '') if not parse_place(place_s)[1] else ''
+        """Drop glue: user `Drop` impls found in the dumps are inlined (for the dropped type and, through the struct
+        declarations read from the sources, for its fields); std's own drop glue (Box, Vec, io::Error, ...) is not
+        interpreted."""
+        place = parse_place(place_s)
+        ty = fn.ltypes.get(place[0], '') if not place[1] else self._place_type_hint(place_s)
         for rx, h in self.env:
             if rx.startswith('drop:') and re.search(rx[5:], ty):
+                v = None
+                try:
+                    v = self.load(st, fr, place)
+                except EngineError:
+                    pass
                 h(self, st, 'drop:' + ty, [v], fn)
+        if self.inline_drops:
+            try:
+                tgt = self.resolve_place(st, fr, place)
+            except EngineError:
+                tgt = []
+            if len(tgt) == 1 and tgt[0][0] is None:
+                _, f, l, p = tgt[0]
+                if st.mem.get((f, l)) is not None or p:
+                    self._drop_value(st, Ref(f, l, p), ty, fn, 0)
         return nxt
+
+    def _drop_value(self, st, ref, ty, fn, depth):
+        if depth > 4:
+            return
+        b = base_type_name(ty)
+        if not re.fullmatch(r'\w+', b or ''):
+            return
+        try:
+            v = self.deref(st, ref)
+        except EngineError:
+            return
+        if v is None or isinstance(v, Opaque):
+            return
+        cands = self.prog.resolve('<%s as Drop>::drop' % b, 1)
+        if len(cands) == 1:
+            outs = self.inline(cands[0], [ref], st)
+            if len(outs) != 1:
+                raise EngineError('Drop impl of %s forks' % b)
+            s2 = outs[0][0]
+            if s2 is not st:
+                st.mem, st.pc, st.trace, st.visits = s2.mem, s2.pc, s2.trace, s2.visits
+        ftys = self.prog.struct_field_types.get(b)
+        if ftys and isinstance(v, Struct) and len(v.f) == len(ftys):
+            for i, ft in enumerate(ftys):
+                fb = base_type_name(ft)
+                if re.fullmatch(r'\w+', fb or '') and (self.prog.resolve('<%s as Drop>::drop' % fb, 1) or fb in self.prog.struct_field_types):
+                    self._drop_value(st, Ref(ref.frame, ref.local, ref.path + (i,)), ft, fn, depth + 1)
 
     # ------------------------------------------------------------------ calls
     def call(self, callee, argv, st, fr, fn):
